@@ -2,7 +2,10 @@
 
 package lib
 
-import "sync/atomic"
+import (
+	"sync/atomic"
+	"time"
+)
 
 // VerifHook is installed by the verification harness. While nil, VerifPoint is a no-op.
 var verifHook atomic.Pointer[func(point string, subject any)]
@@ -42,4 +45,22 @@ func VerifNow(now int64) int64 {
 		return (*f)(now)
 	}
 	return now
+}
+
+var verifTimer atomic.Pointer[func(t *time.Timer)]
+
+// SetVerifTimer installs (or removes, with nil) the timer override.
+func SetVerifTimer(f func(t *time.Timer)) {
+	if f == nil {
+		verifTimer.Store(nil)
+		return
+	}
+	verifTimer.Store(&f)
+}
+
+// VerifTimer lets the harness re-arm a timer that was just set.
+func VerifTimer(t *time.Timer) {
+	if f := verifTimer.Load(); f != nil {
+		(*f)(t)
+	}
 }
